@@ -1,7 +1,7 @@
 //! C15: observation of `swimos_recon::{compare_recon_values, recon_hash}` against
 //! `parse_recognize::<Value>` + `Value::eq` on texts generated from specs/ReconCompare.tla.
 //!
-//!   case   {"id", "texts": [s], "groups": [[i..]], "pairs": [[i,j]], "print": bool}
+//!   case   {"id", "texts": [s], "groups": [[i..]], "pairs": [[i,j]], "print": bool, "events": [i..]}
 //!   result {"valid": [bool], "hash": ["hex"], "printed": [[standard, compact, pretty] | null],
 //!           "groups": [ {"cmp": ["0110.."], "veq": ["01-.."]} ], "pairs": {"cmp": "01..", "veq": "01-.."}}
 //!
@@ -12,9 +12,77 @@ use serde_json::{json, Value as J};
 use std::collections::hash_map::DefaultHasher;
 use std::hash::Hasher;
 use std::panic::{catch_unwind, AssertUnwindSafe};
+use swimos_form::read::{NumericValue, ReadError, ReadEvent, Recognizer, RecognizerReadable};
 use swimos_model::Value;
 use swimos_recon::parser::parse_recognize;
 use swimos_recon::{compare_recon_values, print_recon, print_recon_compact, print_recon_pretty, recon_hash};
+
+/// The stream of parse events of a text (what compare_recon_values iterates over), recorded through the public
+/// parse_recognize entry point.  Numbers are written by value (ReadEvent's == compares numbers by value, floats with
+/// ==), so two events are equal for the comparator iff their ("k", "v") pairs are equal.
+struct Events(Vec<J>);
+struct Recorder(Vec<J>);
+
+fn event_json(e: &ReadEvent<'_>) -> J {
+    match e {
+        ReadEvent::Extant => json!({"k": "prim", "v": "X"}),
+        ReadEvent::TextValue(t) => json!({"k": "prim", "v": format!("T{}", t)}),
+        ReadEvent::Number(n) => {
+            let v = match n {
+                NumericValue::Int(i) => format!("N{}", i),
+                NumericValue::UInt(i) => format!("N{}", i),
+                NumericValue::BigInt(i) => format!("N{}", i),
+                NumericValue::BigUint(i) => format!("N{}", i),
+                NumericValue::Float(x) => {
+                    if x.is_nan() {
+                        "Fnan".to_string()
+                    } else if *x == 0.0 {
+                        "F0".to_string()
+                    } else {
+                        format!("F{:016x}", x.to_bits())
+                    }
+                }
+            };
+            json!({"k": "prim", "v": v})
+        }
+        ReadEvent::Boolean(b) => json!({"k": "prim", "v": format!("B{}", b)}),
+        ReadEvent::Blob(b) => json!({"k": "prim", "v": format!("D{:?}", b)}),
+        ReadEvent::StartAttribute(n) => json!({"k": "sa", "v": n.to_string()}),
+        ReadEvent::EndAttribute => json!({"k": "ea", "v": ""}),
+        ReadEvent::StartBody => json!({"k": "sb", "v": ""}),
+        ReadEvent::Slot => json!({"k": "slot", "v": ""}),
+        ReadEvent::EndRecord => json!({"k": "er", "v": ""}),
+    }
+}
+
+impl Recognizer for Recorder {
+    type Target = Events;
+    fn feed_event(&mut self, input: ReadEvent<'_>) -> Option<Result<Events, ReadError>> {
+        self.0.push(event_json(&input));
+        None
+    }
+    fn try_flush(&mut self) -> Option<Result<Events, ReadError>> {
+        Some(Ok(Events(std::mem::take(&mut self.0))))
+    }
+    fn reset(&mut self) {
+        self.0.clear()
+    }
+}
+
+impl RecognizerReadable for Events {
+    type Rec = Recorder;
+    type AttrRec = Recorder;
+    type BodyRec = Recorder;
+    fn make_recognizer() -> Recorder {
+        Recorder(vec![])
+    }
+    fn make_attr_recognizer() -> Recorder {
+        Recorder(vec![])
+    }
+    fn make_body_recognizer() -> Recorder {
+        Recorder(vec![])
+    }
+}
 
 fn cmp_char(a: &str, b: &str) -> char {
     match catch_unwind(AssertUnwindSafe(|| compare_recon_values(a, b))) {
@@ -68,6 +136,21 @@ fn run_case(case: &J) -> J {
     } else {
         vec![]
     };
+    // "events": [i..] -> the parse events of those texts (null if the text has none / is invalid)
+    let events: Vec<J> = case["events"]
+        .as_array()
+        .map(|xs| {
+            xs.iter()
+                .map(|x| {
+                    let t = &texts[x.as_u64().unwrap() as usize];
+                    match catch_unwind(AssertUnwindSafe(|| parse_recognize::<Events>(t.as_str(), false).ok())) {
+                        Ok(Some(ev)) => J::Array(ev.0),
+                        _ => J::Null,
+                    }
+                })
+                .collect()
+        })
+        .unwrap_or_default();
     let mut groups = Vec::new();
     if let Some(gs) = case["groups"].as_array() {
         for g in gs {
@@ -97,7 +180,7 @@ fn run_case(case: &J) -> J {
             pv.push(veq_char(&parsed[i], &parsed[j]));
         }
     }
-    json!({"valid": valid, "hash": hash, "printed": printed, "groups": groups, "pairs": {"cmp": pc, "veq": pv}})
+    json!({"valid": valid, "hash": hash, "printed": printed, "groups": groups, "pairs": {"cmp": pc, "veq": pv}, "events": events})
 }
 
 fn main() {
